@@ -3,7 +3,7 @@ CFG = {
   'ready': True,
   'gens': ['gen_consts.py', 'gen_txbuilder.py', 'gen_htlc_tables.py'],
   'props_module': 'LdkModel.Props.C01',
-  'extra_props_modules': ['LdkModel.Props.C01Stats'],
+  'extra_props_modules': ['LdkModel.Props.C01Stats', 'LdkModel.Props.ChanProto'],
   'models': ['c01txb', 'chan'],
   'model_bins': {'chan': 'chan'},
   'model_drivers': {'chan': 'drv_chan'},
